@@ -201,6 +201,8 @@ class AsyncFIXConnection:
             self._test_req_id = None
             self._message_last_time = 0.0
             self._max_seq_num_resend = 0
+            # Partially received frame belongs to the connection which is gone
+            self._msg_buffer = b""
 
             if logout_message is not None:
                 msg = FIXMessage(FMsg.LOGOUT)
